@@ -243,7 +243,7 @@ func isolatedView(dir string, bt *jrnkit.Built, cw bool, mx int) view {
 	}
 	rj, _ := json.Marshal(rq)
 	exe, _ := os.Executable()
-	ctx, cancel := context.WithTimeout(context.Background(), time.Duration(e.N(6, 20))*time.Second)
+	ctx, cancel := context.WithTimeout(context.Background(), time.Duration(e.N(6, 10))*time.Second)
 	defer cancel()
 	cmd := exec.CommandContext(ctx, exe, "-worker", "-req", string(rj))
 	out, err := cmd.Output()
@@ -538,7 +538,7 @@ func runHistory(h, h2 jrnkit.History, only *variant, r *hx.Rng, n int) {
 	// high-order bytes of the unprotected length (multi-GiB allocation) and offset: isolated child
 	nhigh := map[string]int{}
 	for _, f := range fs {
-		if (f.Name == "lookup.length" || f.Name == "lookup.offset") && nhigh[f.Name] < e.N(1, 6) && r.Chance(1, 3) {
+		if (f.Name == "lookup.length" || f.Name == "lookup.offset") && nhigh[f.Name] < e.N(1, 2) && r.Chance(1, 3) {
 			nhigh[f.Name]++
 			vs = append(vs, variant{Kind: "fliphigh", At: f.Off + r.Intn(2), Bit: 4 + r.Intn(4), Field: f.Name, CW: false})
 		}
